@@ -15,22 +15,28 @@ package jobsync
 //@ functype context.CancelFunc()
 //@   modifies $none
 
+// the error list is shared by every producer and consumer and by whoever asks for the errors:
+// it is read and written under the lifecycle's mutex only
 //@ type Lifecycle
 //@   field ctx stable
-//@ func (*Lifecycle).Error [C04]
-//@   layers safety contract
+//@   field errors guarded_by mutex
+//@ func (*Lifecycle).Error [C04 C08]
+//@   layers safety contract lock
 //@   requires lifecycle != nil
 //@   requires forall(k, 0 <= k && k < len(e) ==> e[k] != nil)
 //@   requires arr(lifecycle.errors) != arr(e) || len(e) == 0
 //@   modifies jobsync.Lifecycle.errors, E:error
+// the errors are on the list before the strict lifecycle is killed: whoever sees the kill and
+// then reads the list (Wait returns once the consumers saw the kill) finds them
+//@   at_call (*Lifecycle).Kill requires len(lifecycle.errors) == old(len(lifecycle.errors)) + len(e) && forall(k, 0 <= k && k < len(e) ==> lifecycle.errors[old(len(lifecycle.errors)) + k] == old(e[k]))
 //@   ensures len(lifecycle.errors) == old(len(lifecycle.errors)) + len(e)
 //@   ensures old(NonNilErrs(lifecycle)) ==> NonNilErrs(lifecycle)
 //@   ensures forall(k, 0 <= k && k < old(len(lifecycle.errors)) ==> lifecycle.errors[k] == old(lifecycle.errors[k]))
 //@   ensures forall(k, 0 <= k && k < len(e) ==> lifecycle.errors[old(len(lifecycle.errors)) + k] == old(e[k]))
 
 // Errors returns every recorded error, in order, followed by the context's error if there is one
-//@ func (*Lifecycle).Errors [C04]
-//@   layers safety contract
+//@ func (*Lifecycle).Errors [C04 C08]
+//@   layers safety contract lock
 //@   requires lifecycle != nil && lifecycle.ctx != nil
 //@   ensures len(result) >= old(len(lifecycle.errors))
 //@   ensures forall(k, 0 <= k && k < old(len(lifecycle.errors)) ==> result[k] == old(lifecycle.errors[k]))
